@@ -358,6 +358,18 @@ func checkC08(c *Ctx) {
 				if (rerr != nil) != (len(errs[path]) > 0) || (rerr != nil && rr == nil) || (rerr == nil && len(devs) == 0) {
 					cs.Violation("no-error-entry", nil, fmt.Sprintf("ReadSpec says %v but the cache has error entries %v, lists %v, Refresh()=%v (%s)", rerr, errs, devs, rr, how), map[string]any{"how": how, "input": clip(string(data), 20000)})
 				}
+				// device-name strings through the cache, whether or not it holds an error
+				// entry for the hostile file: unknown, hostile and (if any) resolvable names
+				_, n1 := gstr(r)
+				names := append([]string{"unknown.org/dev=none", n1, "vendor.com/gpu=" + n1, string(data[:min(len(data), 200)])}, devs...)
+				r.Shuffle(len(names), func(i, j int) { names[i], names[j] = names[j], names[i] })
+				cache.InjectDevices(genOCI(r), names...)
+				cache.InjectDevices(nil, names...)
+				for _, n := range names {
+					cache.GetDevice(n)
+				}
+				cache.GetErrors()
+				c.Count("requests_with_unresolvable_names_on_the_loaded_cache", 1)
 				if rerr == nil {
 					// every loadable Spec injected into OCI specs with nil / populated sections
 					for k := 0; k < 2; k++ {
